@@ -279,7 +279,11 @@ impl MultiReceiver {
             }
         }
 
-        self.alc_receiver.retain(|_, v| !v.is_expired());
+        // Remove exactly the sessions found expired above: is_expired() reads the clock, a
+        // second evaluation could expire (and silently remove) more sessions
+        for endpoint in &output {
+            self.alc_receiver.remove(endpoint);
+        }
         for receiver in &mut self.alc_receiver.values_mut() {
             receiver.cleanup(now);
         }
